@@ -38,8 +38,10 @@ THEOREMS = [_NS + n for n in [
     "tls13_connection_exact_displaced",
     "causal12_of_packet_order",
     "causal13_of_packet_order",
-    "tls13_fragmented_partial",
-    "Ex2.tls13_fragmented_counterexample",
+    "tls13_connection_exact_fragmented",
+    "hsBuf_invariant",
+    "Ex2.legacy_tls13_fragmented_counterexample",
+    "Ex2.tls13_fragmented_instance_B",
     "Ex2.tls13_fragmented_instance",
     "Ex2.tls12_displaced_instance",
     "tls12_connection_meta_exact",
